@@ -64,16 +64,20 @@ def make_carrier(rng, ver, t, kind):
     if t == "x-dict":
         o = {"type": "x-unregistered", "id": g.new_id("x-unregistered"), "created": "2020-01-01T00:00:00.000Z", "modified": "2020-01-01T00:00:00.000Z",
              "created_by_ref": g.new_id("identity"), "name": "n", "labels": ["l%d" % k for k in range(11)],
-             "x_foo": {"inner": "v", "items": ["a", "b"]}, "x_foo_bar": {"inner": "w"}, "foo": "f", "foo_bar": "fb"}
+             "x_foo": {"inner": "v", "items": ["a", "b"]}, "x_foo_bar": {"inner": "w"}, "foo": "f", "foo_bar": "fb",
+             "x_opts": {"enabled": False, "count": 0, "note": ""}, "x_flags": [True, False, 0]}
         if ver == "2.1":
             o["spec_version"] = "2.1"
         return o
     if t == "custom-props":
         o = g.make("campaign", "random", granular=False, markings=False)
-        o.update({"x_foo": {"inner": "v", "items": ["a", "b"]}, "x_foo_bar": {"inner": "w"}})
+        o.update({"x_foo": {"inner": "v", "items": ["a", "b"]}, "x_foo_bar": {"inner": "w"},
+                  "x_opts": {"enabled": False, "count": 0, "note": ""}, "x_flags": [True, False, 0]})
     elif t == "x-stixmon-widget":
         o = gcustom.widget(g)
         o["tags"] = ["t%d" % k for k in range(11)]
+        o["enabled"] = False           # falsy targets: a selector addresses a property, whatever its value
+        o["size"] = 0
     elif t == "file":
         o = {"type": "file", "spec_version": "2.1", "id": g.new_id("file"), "name": "n.exe", "name_enc": "UTF-8", "size": 5,
              "hashes": {"MD5": V.hash_value(rng, "MD5")}}
@@ -82,6 +86,11 @@ def make_carrier(rng, ver, t, kind):
         o = g.make(t, "random", granular=False, markings=False)
     o.pop("object_marking_refs", None)
     o.pop("revoked", None)
+    if t == "malware":
+        o["is_family"] = False
+        o.pop("name", None) if ver == "2.1" else None
+    if ver == "2.1" and kind in ("sdo", "sro") and t in M.model(ver).types:
+        o["confidence"] = 0
     if kind in ("sdo", "sro") or t == "marking-definition":
         if "created_by_ref" not in o:
             o["created_by_ref"] = g.new_id("identity")
@@ -98,7 +107,8 @@ def universe(o):
     cands = ["type", "id", "created", "created_by_ref", "modified", "name", "name_enc", "description", "labels", "labels.[0]", "labels.[1]", "labels.[10]",
              "tags", "tags.[1]", "tags.[10]", "external_references", "external_references.[0]", "external_references.[0].source_name",
              "external_references.[1]", "external_references.[1].source_name", "x_foo", "x_foo_bar", "x_foo.inner", "x_foo.items", "x_foo.items.[1]",
-             "x_foo_bar.inner", "foo", "foo_bar", "relationship_type", "source_ref", "hashes", "size", "definition", "definition.statement"]
+             "x_foo_bar.inner", "foo", "foo_bar", "relationship_type", "source_ref", "hashes", "size", "definition", "definition.statement",
+             "is_family", "confidence", "enabled", "x_opts", "x_opts.enabled", "x_opts.count", "x_opts.note", "x_flags", "x_flags.[1]", "x_flags.[2]"]
     from ..oracles import paths as pathor
     return [s for s in cands if pathor.fits_syntax(pathor.split(s)) and pathor.resolve(o, pathor.split(s))[0]]
 
@@ -365,7 +375,7 @@ def wl_history(ctx, rng, i):
 
 
 WORKLOADS = [
-    Workload("history", wl_history, quick=lambda: len(CARRIERS) * 4, thorough=lambda: len(CARRIERS) * 150),
+    Workload("history", wl_history, quick=lambda: len(CARRIERS) * 4, thorough=lambda: len(CARRIERS) * 400),
 ]
 
 
